@@ -1,5 +1,88 @@
 import FGVerif.Driver.Shared
-/-! driver operations for C05 (stub: replaced by the property's own driver) -/
+import FGVerif.Model.C05
+import FGVerif.Generated.C05
+/-! driver operations for C05 -/
 namespace C05
-def handle : List SExp → Option SExp := fun _ => none
+open SExp Perm
+
+/-- `(name pattern (group_atom …) (anti_pattern …) max_pattern_size (child …))` -/
+def asTreeNode : SExp → Option TreeNode
+  | .list [n, p, ga, ap, sz, ch] => do
+      pure { cfg := { name := ← asStr n, pattern := ← asGraph p, groupAtoms := ← asList asInt ga,
+                      antiPatterns := ← asList asGraph ap, maxPatternSize := ← asInt sz },
+             children := ← asList asNat ch }
+  | _ => none
+
+/-- `((node …) (root …))` -/
+def asTree : SExp → Option Tree
+  | .list [ns, rs] => do pure { nodes := ← asList asTreeNode ns, roots := ← asList asNat rs }
+  | _ => none
+
+def ofTreeNode (nd : TreeNode) : SExp :=
+  .list [ofStr nd.cfg.name, ofGraph nd.cfg.pattern, ofList ofInt nd.cfg.groupAtoms,
+         ofList ofGraph nd.cfg.antiPatterns, ofInt nd.cfg.maxPatternSize, ofList ofNat nd.children]
+
+def ofTree (t : Tree) : SExp := .list [ofList ofTreeNode t.nodes, ofList ofNat t.roots]
+
+def ofEntries (l : List (String × List Int)) : SExp :=
+  ofList (fun (e : String × List Int) => .list [ofStr e.1, ofList ofInt e.2]) l
+
+def asEntries : SExp → Option (List (String × List Int)) :=
+  asList (asPair asStr (asList asInt))
+
+def ofFailure : Failure → SExp
+  | .unknownName k => .list [.atom "unknown", ofNat k]
+  | .notSorted k => .list [.atom "unsorted", ofNat k]
+  | .foreignId k => .list [.atom "foreign", ofNat k]
+  | .unwitnessed k => .list [.atom "unwitnessed", ofNat k]
+  | .moreSpecific k => .list [.atom "morespecific", ofNat k]
+  | .uncovered a => .list [.atom "uncovered", ofInt a]
+
+/-- the tree of the default configuration as generated from the source -/
+def generatedDefaultTree : Tree :=
+  { nodes := Gen.C05.defaultTreeNodes.map fun r =>
+      { cfg := { name := r.1, pattern := r.2.1, groupAtoms := r.2.2.1, antiPatterns := r.2.2.2.1,
+                 maxPatternSize := r.2.2.2.2.1 }, children := r.2.2.2.2.2 },
+    roots := Gen.C05.defaultTreeRoots }
+
+/-- `(get <mapper> <tree> <mol> <requireH 0|1> [impl entries | (raised K)])`
+      → `(ok <model entries> <spec_model> <spec_impl|_> <failures of impl> <failures of model> <topo>
+            (<WitnessPathClosed instances> (<failing (atom node descendant)> …)))`
+    `(isfg <mapper> <tree node> <graph> <index> <max_id|_> [impl (is_fg (id …))])`
+      → `(ok (is_fg (id …)) 1 _)` (correspondence only)
+    `(gentree)` → `(ok <generated default tree> 1 _)` -/
+def handle : List SExp → Option SExp
+  | .atom "get" :: m :: t :: g :: rh :: rest => do
+      let m ← asMapper m
+      let t ← asTree t
+      let g ← asGraph g
+      let rh ← asBool rh
+      let model := getFunctionalGroups t g m rh
+      let failModel := specFailures m t g rh model
+      let (specImpl, failImpl) ← match rest with
+        | [.list [.atom "raised", _]] => pure (ofBool false, SExp.list [.list [.atom "raised"]])
+        | [impl] => do
+            let out ← asEntries impl
+            let f := specFailures m t g rh out
+            pure (ofBool (specCheck m t g rh out), ofList ofFailure f)
+        | _ => pure (none', .list [])
+      let pc := pathClosedViolations (modelMatcher m) t (queryGraph g rh).2 g.maxId (candidates g) t.descendantsOf
+      let pcx := SExp.list [ofNat ((candidates g).length * t.nodes.length),
+        ofList (fun (v : Int × Nat × Nat) => .list [ofInt v.1, ofNat v.2.1, ofNat v.2.2]) pc]
+      pure (.list [.atom "ok", ofEntries model, ofBool (specCheck m t g rh model), specImpl, failImpl,
+                   ofList ofFailure failModel, ofBool t.topo, pcx])
+  | .atom "isfg" :: m :: nd :: g :: idx :: mx :: rest => do
+      let m ← asMapper m
+      let nd ← asTreeNode nd
+      let g ← asGraph g
+      let idx ← asInt idx
+      let mx ← asOpt asInt mx
+      let r := isFunctionalGroup g idx nd.cfg m mx
+      let enc := SExp.list [ofBool r.1, ofList ofInt r.2]
+      -- correspondence only: the property speaks about `get`, not about this helper
+      let _ := rest
+      pure (.list [.atom "ok", enc, ofBool true, none'])
+  | [.atom "gentree"] => pure (.list [.atom "ok", ofTree generatedDefaultTree, ofBool true, none'])
+  | _ => none
+
 end C05
